@@ -12,7 +12,10 @@
 package fix
 
 import (
+	"bytes"
+	"crypto/subtle"
 	"encoding/binary"
+	"io"
 	"math/big"
 
 	"fixture/inner"
@@ -69,7 +72,7 @@ func tableSlice(long bool) []byte {
 	return table[:4] // want: addr table
 }
 func counterValue() int { return counter } // benign
-func notAccessor(flag bool) *big.Int {
+func maybeN(flag bool) *big.Int {
 	if flag {
 		return new(big.Int)
 	}
@@ -163,15 +166,15 @@ func ThroughCall() {
 	getCurve().Params().N.SetInt64(0) // want: call cur Params; call cur SetInt64
 	getN().SetInt64(1)                // want: call n SetInt64
 	getN2().SetInt64(2)               // want: call n SetInt64
-	(getN()).Add(one, one)            // want: call n Add
+	(getN()).Add(one, one)            // want: call n Add; farg one (*math/big.Int).Add 0; farg one (*math/big.Int).Add 1
 	tablePtr()[0] = 1                 // want: write table
 	tableSlice(true)[1] = 2           // want: write table
 	holder{}.Table()[2] = 3           // want: write table
 	*tablePtr() = [16]byte{}          // want: write table
 	inner.Get().SetInt64(0)           // want: call inner.secret SetInt64
 	inner.Fresh().SetInt64(0)         // benign
-	notAccessor(true).SetInt64(0)     // benign
-	cur.Params().N.Cmp(one)           // want: call cur Params; call cur Cmp
+	maybeN(true).SetInt64(0)          // want: call n SetInt64
+	cur.Params().N.Cmp(one)           // want: call cur Params; call cur Cmp; farg one (*math/big.Int).Cmp 0
 	cur.params.N.SetInt64(3)          // want: call cur SetInt64
 	_ = counterValue()                // benign
 }
@@ -232,21 +235,21 @@ func Ordinary(src []byte) {
 
 // ---- method calls, method values, method expressions
 func Methods(x *big.Int) int {
-	n.Cmp(one)                                           // want: call n Cmp
+	n.Cmp(one)                                           // want: call n Cmp; farg one (*math/big.Int).Cmp 0
 	f := one.SetInt64                                    // want: call one SetInt64
 	f(3)                                                 // benign
 	(*big.Int).SetInt64(one, 3)                          // want: call one SetInt64
 	(*big.Int).SetInt64(x, 3)                            // benign
-	x.Add(n, one)                                        // benign
+	x.Add(n, one)                                        // want: farg n (*math/big.Int).Add 0; farg one (*math/big.Int).Add 1
 	x.SetInt64(9)                                        // benign
-	y := new(big.Int).Set(n)                             // benign
+	y := new(big.Int).Set(n)                             // want: farg n (*math/big.Int).Set 0
 	y.SetInt64(1)                                        // benign
 	st.reset()                                           // want: call st reset
 	(&st).reset()                                        // want: call st reset; addr st
 	return n.BitLen() + len(sl) + int(table[3]) + m["a"] // want: call n BitLen
 }
 
-func (s *state) reset() { s.n = 0 }
+func (s *state) reset() { s.n = 0 } // want: write st
 
 // ---- address taking
 func Addr() (*byte, *int, []byte) {
@@ -298,9 +301,93 @@ func Aliases(src []byte) {
 	var late *big.Int
 	late.SetInt64(2)             // want: call n SetInt64
 	late = n                     // benign
-	fresh := new(big.Int).Set(n) // benign
+	fresh := new(big.Int).Set(n) // want: farg n (*math/big.Int).Set 0
 	fresh.SetInt64(1)            // benign
 	t = src                      // benign
 	p = nil                      // benign
 	_ = &p                       // benign
 }
+
+// ---- interprocedural: a parameter stands for every package-level variable some call site passes for it
+
+// writes through its parameter; receives table (from Inter, and through forward) and a local
+func scribble(dst []byte) {
+	dst[0] = 1 // want: write table
+}
+
+// two-level forwarding
+func forward(p []byte) { scribble(p[1:]) }
+
+// only reads its parameter
+func readOnly(p []byte) int { return int(p[0]) + len(p) } // benign
+
+// a method of a type of the module, package-level arguments written through
+func (s *state) fill(src *big.Int, out []int) {
+	out[0] = src.BitLen() // want: write sl; call n BitLen
+	src.SetInt64(1)       // want: call n SetInt64
+	s.n = 1               // benign
+}
+
+func variadic(ps ...*big.Int) {
+	ps[0].SetInt64(0) // want: call n SetInt64; call one SetInt64
+}
+
+// returns its parameter: instantiated at each call site
+func chain(p *big.Int) *big.Int { return p }
+
+func pair() (*big.Int, []byte) { return one, table[:] } // want: addr table
+
+// called with a package-level variable from initialisation AND with a local at run time: context-insensitive
+func both(p *big.Int) {
+	p.SetInt64(2) // want: call one SetInt64
+}
+
+func init() { both(one) }
+
+// stores a pointer into a package-level variable in a local structure
+type box struct{ v *big.Int }
+
+func Inter(local []byte) {
+	scribble(table[:]) // want: addr table
+	forward(table[2:]) // want: addr table
+	scribble(local)    // benign
+	readOnly(table[:]) // want: addr table
+	var s state
+	s.fill(n, sl)                   // benign
+	variadic(n, one)                // benign
+	chain(one).SetInt64(5)          // want: call one SetInt64
+	chain(new(big.Int)).SetInt64(5) // benign
+	both(new(big.Int))              // benign
+	a, b := pair()                  // benign
+	a.SetInt64(6)                   // want: call one SetInt64
+	b[0] = 1                        // want: write table
+	bx := box{v: n}                 // benign
+	bx.v.SetInt64(7)                // want: call n SetInt64
+	var by box
+	by.v = one                                  // benign
+	by.v.SetInt64(8)                            // want: call one SetInt64
+	func(p []byte) { p[1] = 2 }(table[:])       // want: addr table; write table
+	new(big.Int).Mod(n, one)                    // want: farg n (*math/big.Int).Mod 0; farg one (*math/big.Int).Mod 1
+	subtle.ConstantTimeCompare(table[:], local) // want: addr table; farg table crypto/subtle.ConstantTimeCompare 0
+	subtle.ConstantTimeCompare(local, local)    // benign
+	var r io.Reader = bytes.NewReader(local)
+	r.Read(sl8) // want: farg sl8 (io.Reader).Read 0
+	fv := readOnly
+	fv(sl8) // want: farg sl8 (dynamic) 0
+}
+
+var sl8 = []byte{1, 2, 3}
+
+// ---- interface dispatch to a method of the module
+type sink struct{ last byte }
+
+func (k *sink) Write(p []byte) (int, error) {
+	p[0] = k.last // want: write sl8
+	return len(p), nil
+}
+
+func Dispatch(wr io.Writer) {
+	wr.Write(sl8) // want: farg sl8 (io.Writer).Write 0
+}
+
+var _ io.Writer = (*sink)(nil)
